@@ -212,7 +212,15 @@ where
             Value::Boolean(b) => write!(self.w, "{}", if b.val { "true" } else { "false" })?,
             Value::Empty(_) => write!(self.w, "NULL")?,
             // TODO(jwall): We should maintain precision for floats?
-            Value::Float(f) => write!(self.w, "{}", f.val)?,
+            Value::Float(f) => {
+                // Display drops a zero fraction ("1" for 1.0); keep the literal a float.
+                let s = format!("{}", f.val);
+                if s.contains('.') {
+                    write!(self.w, "{}", s)?
+                } else {
+                    write!(self.w, "{}.0", s)?
+                }
+            }
             Value::Int(i) => write!(self.w, "{}", i.val)?,
             Value::Str(s) => write!(self.w, "\"{}\"", Self::escape_quotes(&s.val))?,
             Value::Symbol(s) => write!(self.w, "{}", s.val)?,
